@@ -276,6 +276,48 @@ def _relational_safe(b, conds):
     return (x, y) in fits or (y, x) in fits
 
 
+def _array_len_of_term(body, t):
+    """fixed length of the array a place term denotes (`self.field` of array type, or an array-typed parameter), else None"""
+    while isinstance(t, tuple) and t and t[0] in ('ref', 'cast'):
+        t = t[1]
+    facts = lib._TL.facts
+    if isinstance(t, tuple) and len(t) == 3 and t[0] == 'field' and facts is not None:
+        base = t[1]
+        while isinstance(base, tuple) and base and base[0] in ('deref', 'ref'):
+            base = base[1]
+        if isinstance(base, tuple) and base[0] == 'param' and base[1] < len(body.locals):
+            ty = re.sub(r"^&(?:'[a-z_0-9]+ )?(?:mut )?", '', body.locals[base[1]].get('ty') or '')
+            adt = facts.adts.get(ty)
+            if adt and len(adt.get('variants', [])) == 1:
+                for fd in adt['variants'][0]['fields']:
+                    if fd.get('name') == t[2]:
+                        return ranges._array_len(fd.get('ty_norm') or fd.get('ty'))
+    return None
+
+
+def _enumerate_index_below(body, idx, n):
+    """idx is the counter of `for (i, _) in ARRAY.iter().enumerate()` over a fixed-size array of at most n elements"""
+    idx = lib.strip_transparent(idx)
+    if not (isinstance(idx, tuple) and len(idx) == 3 and idx[0] == 'field' and idx[2] == '0'):
+        return False
+    e = idx[1]
+    if not (isinstance(e, tuple) and len(e) == 3 and e[0] == 'field' and e[2] == '0' and isinstance(e[1], tuple) and e[1][0] == 'downcast' and e[1][2] == 'Some'):
+        return False
+    nx = e[1][1]
+    if not (isinstance(nx, tuple) and nx[0] == 'call' and nx[1].split('::')[-1] == 'next' and 'Enumerate' in nx[1]):
+        return False
+    it = nx[2][0]
+    while isinstance(it, tuple) and it and (it[0] in ('ref', 'deref') or (it[0] == 'call' and len(it[2]) == 1 and it[1].split('::')[-1] == 'into_iter')):
+        it = it[1] if it[0] != 'call' else it[2][0]
+    if not (isinstance(it, tuple) and it[0] == 'call' and it[1].split('::')[-1] == 'enumerate' and len(it[2]) == 1):
+        return False
+    src = it[2][0]
+    if not (isinstance(src, tuple) and src[0] == 'call' and src[1].split('::')[-1] in ('iter', 'iter_mut') and src[1].startswith('core::slice::') and len(src[2]) == 1):
+        return False
+    k = _array_len_of_term(body, src[2][0])
+    return k is not None and k <= n
+
+
 def path_safe_assert(body, block):
     """path-sensitive discharge of an Assert: on every enumerated path through `block` the asserted condition is either a
     constant that holds, or the very comparison the path has already branched on with the outcome the assert needs
@@ -311,6 +353,9 @@ def path_safe_assert(body, block):
                     continue
             if isinstance(c, tuple) and c[0] == 'overflow' and isinstance(c[1], tuple) and c[1][0] == 'bin' and c[1][1] in ('AddWithOverflow', 'SubWithOverflow') \
                     and _relational_safe(c[1], p.conds):
+                continue
+            if e[1] == 'bounds' and isinstance(c, tuple) and c[0] == 'bin' and c[1] == 'Lt' and lib.term_int(c[3]) is not None \
+                    and _enumerate_index_below(body, c[2], lib.term_int(c[3])):
                 continue
             k = lib.term_int(c)
             if k is not None:
